@@ -147,18 +147,48 @@ theorem filter_refused_empty_and (numOf : String → Option Int) (d : Elem) :
   · simp [convert, junction, convertList, mEval]
   · simp [eval, evalList, allTrue]
 
-/-- C14-range-args: fewer than two bounds make convertHasExpression index out of range; a
-    non-list argument yields the empty filter, which selects everything. -/
-theorem filter_crash_short_range (n : Bool) :
-    convert (.cond "x" .inside (.arr [.num 1024])) n = .crash := by
-  simp [convert, convRange]
+/-- C14-range-args, REPAIRED (`fix: the mongo compiler treats a range condition whose value is not
+    a list of two bounds as matching nothing`): before, fewer than two bounds made
+    convertHasExpression index out of range (a crash), more than two were silently cut to two and a
+    non-list gave the empty filter (selects everything).  Now, for every document, key, range
+    operator, malformed argument and polarity, the emitted filter is accepted by MongoDB and answers
+    what the core engine answers. -/
+theorem range_args_malformed_agree (numOf : String → Option Int) (d : Elem) (k : String) (c : Cond)
+    (a : JV) (n : Bool) (hc : c = .inside ∨ c = .outside ∨ c = .between)
+    (ha : ∀ l u, a ≠ .arr [l, u]) :
+    mEval d (convert (.cond k c a) n) = some (eval numOf d (.cond k c a) != n) := by
+  have hcore : eval numOf d (.cond k c a) = false := by
+    simp only [eval]
+    rcases hc with rfl | rfl | rfl <;> simp only [matchesCond, range3] <;>
+      (cases a with
+       | arr xs =>
+         simp only [toSlice]
+         match xs, ha with
+         | [], _ => rfl
+         | [_], _ => rfl
+         | [l, u], ha => exact absurd rfl (ha l u)
+         | _ :: _ :: _ :: _, _ => rfl
+       | _ => rfl)
+  have hconv : ∀ c1 c2 isAnd, convRange k c1 c2 isAnd a n = if n then MDoc.all else MDoc.nothing := by
+    intro c1 c2 isAnd
+    cases a with
+    | arr xs =>
+      match xs, ha with
+      | [], _ => rfl
+      | [_], _ => rfl
+      | [l, u], ha => exact absurd rfl (ha l u)
+      | _ :: _ :: _ :: _, _ => rfl
+    | _ => rfl
+  rw [hcore]
+  rcases hc with rfl | rfl | rfl <;> simp only [convert, hconv] <;> cases n <;> rfl
 
-theorem filter_differs_nonlist_range (numOf : String → Option Int) (d : Elem) :
-    mEval d (convert (.cond "x" .inside (.num 1024)) false) = some true ∧
+/-- …in particular the former crash witness and the former "selects everything" witness. -/
+theorem filter_short_range_no_crash (numOf : String → Option Int) (d : Elem) (n : Bool) :
+    hasCrash (convert (.cond "x" .inside (.arr [.num 1024])) n) = false ∧
+    mEval d (convert (.cond "x" .inside (.num 1024)) false) = some false ∧
     eval numOf d (.cond "x" .inside (.num 1024)) = false := by
-  constructor
-  · simp [convert, convRange, mEval]
-  · simp [eval, matchesCond, range3, toSlice]
+  refine ⟨by cases n <;> rfl, rfl, ?_⟩
+  simp [eval, matchesCond, range3, toSlice]
 
 /-! ### Non-vacuity -/
 section examples
